@@ -1,0 +1,23 @@
+//go:build verif
+
+// Contracts for the lvc verifier (comment-only file, compiled only with -tags verif).
+
+package mpbgv
+
+// ---- copy constructors (property C10) ----
+//@ copy EncToShareProtocol.ShallowCopy
+//@   copied KeySwitchProtocol encoder
+//@   shared params zero
+//@   fresh maskSampler tmpPlaintextRingT tmpPlaintextRingQ
+
+//@ copy ShareToEncProtocol.ShallowCopy
+//@   copied KeySwitchProtocol encoder
+//@   shared params zero
+//@   fresh tmpPlaintextRingQ
+
+//@ copy MaskedTransformProtocol.ShallowCopy
+//@   copied e2s s2e
+//@   fresh tmpPt tmpMask tmpMaskPerm
+
+//@ copy RefreshProtocol.ShallowCopy
+//@   copied MaskedTransformProtocol
